@@ -77,7 +77,8 @@ PROPS["C10"] = {
 
 PROPS["C11"] = {
     "title": "Latency percentiles are ordered and within a bounded rank error",
-    "units": [{"name": "percentiles", "pkg": "lib", "run": "^TestC11", "scale_thorough": 30},
+    "units": [{"name": "percentiles", "pkg": "lib", "run": "^TestC11(Percentiles|PercentilesLarge)$", "scale_thorough": 30},
+              {"name": "huge", "pkg": "lib", "run": "^TestC11PercentilesHuge$", "thorough_only": True, "shards_thorough": 4, "timeout_thorough": 1500},
               {"name": "reportcmd", "pkg": "main", "run": "^TestC11", "shards_quick": 2, "shards_thorough": 8}],
     "rule": "rapid draws latency multisets of n in {1..20} or log-uniform up to 5000 (thorough: up to 1e5) from eight "
             "families (uniform, log-normal, exponential, constant, few-valued, bimodal with gaps up to 1e9x, heavy tail, "
@@ -91,7 +92,7 @@ PROPS["C11"] = {
     "level_text": "generated-input search over distributions and arrival orders against an exact rank computation on "
                   "the sorted sample; cannot prove absence",
     "level_note": "the rank convention is the one most favourable to the estimator among the usual percentile "
-                  "definitions; the listed known finding p50-resolution suppresses only median errors up to 1+0.032*n",
+                  "definitions; the listed known finding tdigest-resolution suppresses only rank errors up to 1 + 3.5 t-digest centroid widths, W(q) = pi/100*sqrt(q(1-q))*n",
     "assumptions": [],
 }
 
@@ -279,7 +280,7 @@ PROPS["C02"] = {
     "title": "Every started hit yields exactly one result and the attack ends cleanly",
     "units": [{"name": "bubble", "pkg": "libsync", "go": "go1.26.8", "run": "^TestC02(Random|Exhaustive|TwoAttacks)", "scale_thorough": 6},
               {"name": "stoprace", "pkg": "lib", "run": "^TestC02StopRace", "shards_quick": 2, "shards_thorough": 8},
-              {"name": "dialpath", "pkg": "lib", "run": "^TestC02DialPath", "shards_quick": 2, "shards_thorough": 8},
+              {"name": "dialpath", "pkg": "lib", "run": "^TestC02(DialPath|SourceFails)", "shards_quick": 2, "shards_thorough": 8},
               {"name": "loopends", "pkg": "libsync", "go": "go1.26.8", "run": "^TestC04Loop", "env": {"VERIF_AS": "C02"}, "shards_quick": 2, "shards_thorough": 8},
               {"name": "pump", "pkg": "main", "run": "^TestC02", "shards_quick": 1, "shards_thorough": 4}],
     "rule": "Histories over the alphabet {tick, pacer-stop, complete(oldest/newest/any), consume, Stop by 1..8 callers, "
@@ -563,4 +564,26 @@ _ADDED4 = {'C01': ' Round 7: flat fast ramps followed for long; the upper bound 
     'C18': ' Round 7: C18.h2c (ConnectTo then H2C).',
     'C20': ' Round 7: a rarely observed label set over 200 000+ results, failure messages beyond 256 bytes.'}
 for _k, _v in _ADDED4.items():
+    PROPS[_k]["rule"] += _v
+
+_ADDED5 = {'C01': ' Round 8: sine trajectories entered on schedule 1e7..1e11 hits into the attack (few hits per period), compared through a cancellation-free S(t) - n (tolerance 0.01 hit at any depth).',
+           'C02': ' Round 8: C02.sourcefails (lazy http / JSON targeters over a failing reader); targeter calls that block across a Stop and return later.',
+           'C03': ' Round 8: C03.realpacer with 4096..10000 initial workers.',
+           'C04': ' Round 8: C04.realpacer (real pacers incl. the unlimited rate with a duration on the virtual clock); pools of 255..600 workers; nothing starts after the pacer stopped.',
+           'C05': ' Round 8: bodies that fail in the part beyond MaxBody.',
+           'C06': ' Round 8: unfollowed 3xx with a Location while redirects are followed; servers that announce more body than they send, keep-alive off.',
+           'C07': ' Round 8: methods in lower and mixed case and near misses.',
+           'C08': ' Round 8: C08.chain with file names a shell would read as patterns, next to siblings such a pattern matches.',
+           'C09': ' Round 8: a first (or later) gob Encode call that fails; the following records must decode at every cut.',
+           'C10': ' Round 8: attack names / sequence numbers unrelated to timestamps; one latency within D of the largest Duration with other results up to D earlier (throughput not examined where Duration+Wait exceeds a Duration).',
+           'C11': ' Round 8: constant latencies of 2^52..2^53 ns; runs of equal latencies arriving one after the other with Closes in between; C11.huge (thorough): 9..16 million samples. The known finding is tdigest-resolution: rank errors up to 1 + 3.5 centroid widths W(q) = pi/100*sqrt(q(1-q))*n.',
+           'C13': ' Round 8: C13.longinputs: 2..6 inputs, one or two of tens of thousands of records next to inputs of 1..5.',
+           'C14': ' Round 8: C14.encoder: targets built by a program (header names with nil / empty value lists, any text) written by the JSON target encoder and read back.',
+           'C15': ' Round 8: C15.badbody (references to unreadable body files between targets sharing body files, 1..16 goroutines); C15.errortail with JSON sources that fail.',
+           'C16': ' Round 8: request lines with an HTTP version; gzip / zlib containers.',
+           'C17': ' Round 8: 100..300 attack names in one plot.',
+           'C18': ' Round 8: ConnectTo replacements with service-name ports.',
+           'C19': ' Round 8: earlier -rate values with a period of zero; C19.ratecmd passes repeated -rate flags to the attack command.',
+           'C20': ' Round 8: U+FFFD in methods, URLs and messages; negative latencies.'}
+for _k, _v in _ADDED5.items():
     PROPS[_k]["rule"] += _v
